@@ -133,6 +133,33 @@ def converterOps : List String :=
 
 def writerOps : List String := ["write.osu", "write.quaver", "write.sm", "write.bms"]
 
+/-- the file entry points of the writers (`write_file(path)`) -/
+def fileWriterOps : List String := ["write_file.osu", "write_file.quaver", "write_file.sm", "write_file.bms"]
+
+/-- an accessor: hands out the argument's own cells (or views of them); not a copy, nothing is claimed about
+changing its result — only that the call itself writes nothing and reaches nothing but its arguments' cells -/
+def shareAll (name : String) (arity : Nat := 1) : Sig :=
+  { name, arity, writes := [], shares := (List.range arity).map (fun i => (i, "*")), copy := false, deep := false }
+
+/-- queries, constructors and analyses of the public surface of TimedList / HoldList / BpmList / Map / MapSet /
+Pattern / ConvertBase that return a new value (a scalar, a string, a new array, frame, item or list) -/
+def queryOps : List (String × Nat) :=
+  [("list.getitem_int", 1), ("list.iter", 1), ("list.empty", 0),
+   ("list.describe", 1), ("list.first_offset", 1), ("list.last_offset", 1), ("list.first_last_offset", 1),
+   ("list.time_diff", 1), ("list.len", 1), ("list.repr", 1), ("list.cmp", 2),
+   ("hold.tail_offset", 1),
+   ("bpm.current_bpm", 1), ("bpm.snap_offsets", 1), ("bpm.ave_bpm", 1),
+   ("map.metadata", 1), ("map.describe", 1), ("map.repr", 1), ("mapset.repr", 1), ("map.metadata_in_set", 2), ("map.describe_in_set", 2), ("mapset.describe", 1),
+   ("list.cast", 2), ("ptn.len", 1), ("ptn.v_mask", 1), ("ptn.h_mask", 1)]
+
+/-- accessors of the public surface: the frame itself, a column of it, `to_numpy` (a view of the frame's buffer when
+the list's columns have one dtype, e.g. every tempo list), `from_dict` (the new frame's object cells ARE the
+caller's list objects: `DataFrame.from_dict` copies pointers), the chart's lists, the set's charts, the stacked views
+(made to write through) -/
+def accessorOps : List (String × Nat) :=
+  [("list.df", 1), ("list.column", 1), ("list.iloc", 1), ("list.loc", 1), ("list.to_numpy", 1), ("list.from_dict", 1), ("hold.head_offset", 1), ("map.getitem", 1), ("map.stack", 1),
+   ("mapset.iter", 1), ("mapset.items", 1), ("mapset.getitem", 1), ("mapset.stack", 1)]
+
 def converterSig (name : String) : Sig :=
   { name, arity := 1, writes := [], shares := [], copy := true, deep := true }
 
@@ -161,8 +188,61 @@ def opTable : List Sig :=
   writerOps.map (fun n => pureCopy n) ++
   [ pureCopy "alg.full_ln" 1 true, pureCopy "alg.hitsound_copy" 2 true,
     pureCopy "alg.sv_normalize", pureCopy "alg.scroll_speed", pureCopy "alg.dominant_bpm",
-    pureCopy "ptn.from_note_lists" 2, pureCopy "ptn.group", pureCopy "ptn.combinations" ]
+    pureCopy "ptn.from_note_lists" 2, pureCopy "ptn.group", pureCopy "ptn.combinations" ] ++
+  fileWriterOps.map (fun n => pureCopy n) ++
+  queryOps.map (fun q => pureCopy q.1 q.2) ++
+  accessorOps.map (fun q => shareAll q.1 q.2) ++
+  [ -- `BpmList.to_timing_map`: a new TimingMap that holds the process-wide default `Snapper` (a dataclass default,
+    -- one object for all TimingMaps): argument 1 is that object; nothing of the tempo list is shared
+    { name := "bpm.to_timing_map", arity := 2, writes := [], shares := [(1, "*")], copy := false, deep := false } ]
 
 def lookup (name : String) : Option Sig := opTable.find? (fun s => s.name = name)
+
+/-- the public surface of the anchored classes (`"<Class>.<name>"`, as the translator reads it from the source)
+and the operations of the table that drive each entry; `[]` = not an operation that returns a value on a chart or
+list (see `notOperations`).  Subclass overrides are driven through the same operation (the harness picks receivers
+of every list class). -/
+def surfaceOps : List (String × List String) :=
+  [("TimedList.__getitem__", ["list.getitem_int", "list.mask", "list.slice"]), ("TimedList.__iter__", ["list.iter"]),
+   ("TimedList.from_dict", ["list.from_dict"]), ("TimedList.__init__", ["list.wrap"]), ("TimedList.empty", ["list.empty"]),
+   ("TimedList.append", ["list.append", "list.append_item"]), ("TimedList.df", ["list.df"]),
+   ("TimedList.to_numpy", ["list.to_numpy"]), ("TimedList.__setitem__", []), ("TimedList.deepcopy", ["list.deepcopy"]),
+   ("TimedList.__deepcopy__", ["list.deepcopy", "map.deepcopy", "mapset.deepcopy"]), ("TimedList.describe", ["list.describe"]),
+   ("TimedList.sorted", ["list.sorted"]), ("TimedList.between", ["list.between"]), ("TimedList.after", ["list.after"]),
+   ("TimedList.before", ["list.before"]), ("TimedList.last_offset", ["list.last_offset"]),
+   ("TimedList.first_offset", ["list.first_offset"]), ("TimedList.first_last_offset", ["list.first_last_offset"]),
+   ("TimedList.move_start_to", ["list.move_start_to"]), ("TimedList.move_end_to", ["list.move_end_to"]),
+   ("TimedList.time_diff", ["list.time_diff"]), ("TimedList.iloc", ["list.iloc"]), ("TimedList.loc", ["list.loc"]),
+   ("TimedList.__len__", ["list.len"]), ("TimedList.__eq__", ["list.cmp"]), ("TimedList.__gt__", ["list.cmp"]),
+   ("TimedList.__ge__", ["list.cmp"]), ("TimedList.__lt__", ["list.cmp"]), ("TimedList.__le__", ["list.cmp"]),
+   ("TimedList.__repr__", ["list.repr"]), ("TimedList.offset", ["list.column"]), ("TimedList.props", []),
+   ("HoldList.last_offset", ["list.last_offset"]), ("HoldList.first_last_offset", ["list.first_last_offset"]),
+   ("HoldList.head_offset", ["hold.head_offset"]), ("HoldList.tail_offset", ["hold.tail_offset"]),
+   ("HoldList.after", ["list.after"]), ("HoldList.before", ["list.before"]), ("HoldList.between", ["list.between"]),
+   ("HoldList.length", ["list.column"]), ("HoldList.column", ["list.column"]), ("HoldList.offset", ["list.column"]),
+   ("HoldList.props", []),
+   ("BpmList.current_bpm", ["bpm.current_bpm"]), ("BpmList.snap_offsets", ["bpm.snap_offsets"]),
+   ("BpmList.to_timing_map", ["bpm.to_timing_map"]), ("BpmList.ave_bpm", ["bpm.ave_bpm"]),
+   ("BpmList.bpm", ["list.column"]), ("BpmList.metronome", ["list.column"]), ("BpmList.offset", ["list.column"]),
+   ("BpmList.props", []),
+   ("Map.__getitem__", ["map.getitem"]), ("Map.__setitem__", []), ("Map.notes", ["map.getitem"]),
+   ("Map.deepcopy", ["map.deepcopy"]), ("Map.metadata", ["map.metadata", "map.metadata_in_set"]),
+   ("Map.describe", ["map.describe", "map.describe_in_set"]), ("Map.rate", ["map.rate"]), ("Map.stack", ["map.stack"]),
+   ("Map.hits", ["map.getitem"]), ("Map.holds", ["map.getitem"]), ("Map.bpms", ["map.getitem"]), ("Map.__repr__", ["map.repr"]),
+   ("MapSet.__init__", []), ("MapSet.__iter__", ["mapset.iter"]), ("MapSet.items", ["mapset.items"]),
+   ("MapSet.__getitem__", ["mapset.getitem"]), ("MapSet.__setitem__", []), ("MapSet.deepcopy", ["mapset.deepcopy"]),
+   ("MapSet.describe", ["mapset.describe"]), ("MapSet.rate", ["mapset.rate"]), ("MapSet.stack", ["mapset.stack"]),
+   ("MapSet.__repr__", ["mapset.repr"]),
+   ("ConvertBase.cast", ["list.cast"]),
+   ("Pattern.__init__", []), ("Pattern.from_note_lists", ["ptn.from_note_lists"]), ("Pattern.__len__", ["ptn.len"]),
+   ("Pattern.group", ["ptn.group"]), ("Pattern.v_mask", ["ptn.v_mask"]), ("Pattern.h_mask", ["ptn.h_mask"])]
+
+/-- entries of the public surface that are not operations returning a value on a chart or list: the item / slice
+assignment interfaces (they exist to change their receiver), the static `props` tables (no chart or list
+argument), and the constructors that only store what they are given (`MapSet(maps)`, `Pattern(cols, offsets,
+types)` — every pool object of the harness is built through them) -/
+def notOperations : List String :=
+  ["TimedList.__setitem__", "TimedList.props", "HoldList.props", "BpmList.props", "Map.__setitem__",
+   "MapSet.__init__", "MapSet.__setitem__", "Pattern.__init__"]
 
 end Reamber.Effects
